@@ -157,7 +157,8 @@ pub fn meta(args: &Args) -> Value {
 
 pub fn run(args: &Args, out: &mut Out) {
     let total = args.cases(2400, 60000);
-    drive(args, out, total, |_idx, rng| Some(gen_case(args, rng, true)), exec);
+    let fam = super::progcase::family_cases();
+    drive(args, out, total + fam.len(), |idx, rng| if idx >= total { fam.get(idx - total).cloned() } else { Some(gen_case(args, rng, true)) }, exec);
 }
 
 pub fn replay(_args: &Args, out: &mut Out, case: &Value) {
